@@ -175,6 +175,15 @@ func parseNumberAsFloat(tag string, numberString string) (float64, error) {
 		_, parsed, err := parseInt64(numberString)
 		return float64(parsed), err
 	}
+	// the yaml spellings of the special floats
+	switch strings.ToLower(numberString) {
+	case ".inf", "+.inf":
+		return math.Inf(1), nil
+	case "-.inf":
+		return math.Inf(-1), nil
+	case ".nan":
+		return math.NaN(), nil
+	}
 	return strconv.ParseFloat(numberString, 64)
 }
 
